@@ -508,7 +508,7 @@ def run(ctx):
     from ..order import SubCtx as _Sub19
     from . import c17 as _c17
     if type(ctx).__name__ != 'SubCtx':     # (C17 re-runs rules of this module: do not chase the circle)
-        _c17.run(_Sub19(ctx, 'C19.1-call-table-untouched', 'c17', allow=('C17.4-table-accessors', 'C17.2-fresh-key')))
+        _c17.run(_Sub19(ctx, 'C19.1-call-table-untouched', 'c17', allow=('C17.4-table-accessors', 'C17.2-fresh-key', 'C17.1-register-before-send')))
 
     # "exactly that recipient": the tables are keyed by pid, so what a pid IS (node, id, serial, creation) decides who gets the message
     # REG_SEND goes to whoever holds the name: the name table is the registry's
